@@ -43,8 +43,14 @@ def main():
         src = open(f).read()
         if src.count(m["old"]) < 1:
             print(f"{m['name']}: pattern not found"); continue
+        extra_src = None
         try:
             open(f, "w").write(src.replace(m["old"], m["new"], 1))
+            if "extra" in m:
+                ef = os.path.join(REPO, m["extra"]["file"])
+                extra_src = (ef, open(ef).read())
+                assert extra_src[1].count(m["extra"]["old"]) >= 1
+                open(ef, "w").write(extra_src[1].replace(m["extra"]["old"], m["extra"]["new"], 1))
             tests_ok = None
             if tests:
                 r = sh("cd /repo && cargo test --workspace --no-fail-fast --offline 2>&1 | grep -E '^test result|error(\\[|:)' ")
@@ -66,6 +72,8 @@ def main():
                 results.append((m["name"], p, verdict))
         finally:
             open(f, "w").write(src)
+            if extra_src:
+                open(extra_src[0], "w").write(extra_src[1])
     sh("git -C /repo checkout -- .")
 
 if __name__ == "__main__":
